@@ -8,6 +8,7 @@ from mc.runner import Ctx
 from checks._c17_common import Env
 from checks import _c17_conv as CV
 from checks import _c17_other as OT
+from checks import _c17_order as OR
 
 PROP = "C17"
 LEVEL = "model_checking"
@@ -18,7 +19,15 @@ RULE = (
     "segmentations with <= 2 segments on a 4-frame grid; all alignments up to 3/4 frames; all (ref,hyp) pairs) "
     "crossed with file prefix {'', 'p_'} x suffix {'.pt', '.x'}; flag groups that act on independent code paths "
     "(size mode, mapping files, replace/ignore lists, output location, link style) are enumerated group by "
-    "group on the full corpora plus a reduced joint pass. Every command with --num-workers is run serially and "
+    "group on the full corpora plus a reduced joint pass. Utterance ORDER: id menus in which one id is a proper "
+    "prefix of another (u1/u10/u2; a/a-b/ab; x/x1/x_1/x.1) x suffix {'.pt','_x.pt','.x'} (first character sorting "
+    "before and after the character following the shared prefix) x prefix {'', 'p_'} on subsetting (first/last/"
+    "shortest/longest by id), error rates (per-utterance order; utterances missing on either side with and without "
+    "--warn-missing), seeded --rand-* (same selection for every suffix) and token dir -> trn (same text for every "
+    "suffix). State carried between calls: every case is evaluated in a process that has already run other "
+    "cases with other arguments and is compared with a from-scratch oracle; subset, error-rate and chunk are "
+    "additionally run after a call with different arguments and compared with the same call in a fresh "
+    "interpreter. Every command with --num-workers is run serially and "
     "then with 2 workers on an in-process pool/loader for --mp-chunk-size in {1,2} under EVERY completion order "
     "of the chunks (and every interleaving of DataLoader worker fetches); each schedule must reproduce the "
     "serial files and printed text. One execution = one (command, corpus, flags, schedule); distinctness is "
@@ -42,6 +51,11 @@ ASSUMPTIONS = [
     "non-unique --format-utt (user-made write collisions) not explored; torch-spect-data-dir-to-wds has no "
     "worker flag and is not covered",
     "MVN groups with a single frame are skipped (F20 is decided by C18)",
+    "utterance order: 'by id' (python string order of the ids, as the subset command documents) is also required "
+    "of the per-utterance error-rate listing and of the trn written from a token directory; seeded --rand-* "
+    "selections are only required to be the same for every file suffix, not to match a particular generator",
+    "ctm writer sorts its rows by (wave file, channel, start) itself and MVN/moment sums are order-free, so the "
+    "prefix-id menus are not repeated there",
 ]
 BUDGET_S = {"quick": 240, "thorough": 2400}
 
@@ -53,6 +67,7 @@ FAMILIES = {
     "er": (OT.cases_er, OT.eval_er, 12),
     "sub": (OT.cases_sub, OT.eval_sub, 8),
     "stat": (OT.cases_stat, OT.eval_stat, 8),
+    "ord": (OR.cases_ord, OR.eval_ord, 3),
 }
 
 
